@@ -949,6 +949,14 @@ class CCodeGenerator:
         assert isinstance(expr, expressions.StructInitializer)
         assert expr.typ is typ
         field_offsets = self.context.get_field_offsets(typ)[1]
+
+        # A bit-field is stored by changing some bits of a storage unit.
+        # Set all units to zero before, this is also the value of the
+        # bit-fields without initializer.
+        has_bitfields = any(field.is_bitfield for field in typ.fields)
+        if has_bitfields:
+            self.gen_local_zero(ptr, typ)
+
         for field in typ.fields:
             # Move further in struct by whole bytes:
             field_offset = field_offsets[field] // 8
@@ -969,7 +977,7 @@ class CCodeGenerator:
             elif field in expr.values:
                 value = expr.values[field]
                 self.gen_local_init(field_ptr, field.typ, value)
-            else:
+            elif not has_bitfields:
                 self.gen_local_zero(field_ptr, field.typ)
 
     def gen_condition_to_integer(self, expr):
